@@ -114,6 +114,23 @@ def ob_level(ctx):
         # the same product plasmid, renumbered from another origin before it is handed to the next level
         prod = prod >> (P["lo"] + mk.pick("rho", P["hi"] - P["lo"]))
         pd = sdata(prod.seq)
+    if P["kind"].startswith("typed:"):
+        # the next-level class is a typed part (generic class + overhang signature): products whose overhangs spell the
+        # signature are what the statement is about
+        base = kit_class(st, P["kit"], P["kind"].split(":")[1])(prod)
+        ctx.require(base.is_valid() is True, "product-rejected-by-next-level-class")
+        for sig, got in zip(NL.signature, (base.overhang_start(), base.overhang_end())):
+            if set(sig) <= set("ACGT"):
+                ctx.assume(seq_eq(sdata(got), sig))
+    if P.get("history"):
+        # another plasmid of the next-level type, filed under the same identifier as the product, was typed before and
+        # its entity is still alive (two cassettes both called "product")
+        from .rblock import concrete_instance
+
+        other = st.record.CircularRecord(st.Seq(concrete_instance(NL.structure(), fixed_letters(NL.structure()) + 3)), id=prod.id)
+        earlier = NL(other)
+        ctx.witness("earlier-accepted", earlier.is_valid())
+        ctx.earlier = earlier
     nxt = NL(prod)
     v = nxt.is_valid()
     ctx.observe("next-valid", v)
@@ -153,6 +170,16 @@ def obligations(tier, seed):
             obs.append(Ob("%s.%s + %d insert(s) -> %s" % (kit, vname, c, nname), ob_level,
                           dict(kit=kit, vector=vname, next=nname, kind=kind, n=F + 1, inserts=c), samples=3,
                           cost=(F + 1) ** 3 * c, expect_witness=("reached-next-level",)))
+            if c == 1 and (tier != "quick" or kit == "cidar"):
+                obs.append(Ob("%s.%s + 1 insert -> %s, a namesake of the product typed before" % (kit, vname, nname), ob_level,
+                              dict(kit=kit, vector=vname, next=nname, kind=kind, n=F + 1, inserts=1, history=True), samples=3,
+                              cost=(F + 1) ** 3, expect_witness=("reached-next-level", "earlier-accepted"), group="history"))
+            if c == 1 and kit == "cidar" and vname == "CIDAREntryVector":
+                for typed in tier_pick(tier, ["CIDARPromoter"], ["CIDARPromoter", "CIDARCodingSequence", "CIDARTerminator"]):
+                    obs.append(Ob("%s.%s + 1 insert -> typed part %s, a namesake of the product typed before" % (kit, vname, typed),
+                                  ob_level, dict(kit=kit, vector=vname, next=typed, kind="typed:" + nname, n=F + 1, inserts=1,
+                                                 history=True), samples=0, cost=(F + 1) ** 3,
+                                  expect_witness=("reached-next-level", "earlier-accepted"), group="history"))
             if c == 1 and tier != "quick" and (kit, vname) in (("cidar", "CIDAREntryVector"), ("ytk", "YTKEntryVector")):
                 n = F + 1
                 for which, total in (("vector", n),):
